@@ -129,6 +129,18 @@ func runC03(c *Ctx) {
 				c.Incomplete("merge-less-order", construct, p.Pos(less.Lit.Pos()), "less does not take two parameters")
 			} else {
 				a, b := names[0], names[1]
+				// the sentinel is whatever the enclosing function hands to losertree.New as the maximum value
+				sentinel := "maxVal"
+				ast.Inspect(fn.Body(), func(nd ast.Node) bool {
+					if call, ok := nd.(*ast.CallExpr); ok && len(call.Args) >= 2 {
+						if f := calleeOf(fn.Info(), call); f != nil && f.Pkg() != nil && strings.HasSuffix(f.Pkg().Path(), "/losertree") && f.Name() == "New" {
+							if id, ok := unparen(call.Args[1]).(*ast.Ident); ok {
+								sentinel = id.Name
+							}
+						}
+					}
+					return true
+				})
 				x := newE9(p, less, func(e ast.Expr, text string) string {
 					t := strings.ReplaceAll(text, " ", "")
 					switch t {
@@ -136,7 +148,7 @@ func runC03(c *Ctx) {
 						return "a"
 					case b:
 						return "b"
-					case "maxVal":
+					case sentinel:
 						return "mx"
 					case a + ".GetSeries()":
 						return "as"
